@@ -355,6 +355,30 @@ def rule_R2(text, log):
     return pat.sub(repl, text)
 
 
+def rule_R2b(text, log):
+    """for (i, b) in E.bytes().enumerate() {  ->  for i in 0..E.as_bytes().len() { let b = E.as_bytes()[i];"""
+    pat = re.compile(r'for \((\w+), (\w+)\) in ([^{}\n]+?)\.bytes\(\)\.enumerate\(\) \{')
+
+    def repl(m):
+        i, b, e = m.group(1), m.group(2), m.group(3)
+        new = 'for %s in 0..%s.as_bytes().len() { let %s = %s.as_bytes()[%s];' % (i, e, b, e, i)
+        log.append({'rule': 'R2b', 'before': m.group(0), 'after': new})
+        return new
+    return pat.sub(repl, text)
+
+
+def rule_R7(text, log):
+    """X.nth(N) on a `Chars` (a provided trait method: Verus cannot attach a spec to it)
+    -> chars_nth(X, N), an external_body wrapper whose body is the same call"""
+    pat = re.compile(r'\b(chars\.clone\(\))\.nth\(([^()]*)\)')
+
+    def repl(m):
+        new = 'chars_nth(%s, %s)' % (m.group(1), m.group(2))
+        log.append({'rule': 'R7', 'before': m.group(0), 'after': new})
+        return new
+    return pat.sub(repl, text)
+
+
 def rule_R3(text, log):
     """generic writer instantiation"""
     pat = re.compile(r'<W: crate::TomlWrite \+ \?Sized>')
@@ -402,7 +426,7 @@ def rule_R5(text, log):
     return text
 
 
-RULES = {'R1': rule_R1, 'R2': rule_R2, 'R3': rule_R3, 'R4': rule_R4, 'R5': rule_R5}
+RULES = {'R1': rule_R1, 'R2': rule_R2, 'R2b': rule_R2b, 'R7': rule_R7, 'R3': rule_R3, 'R4': rule_R4, 'R5': rule_R5}
 
 
 def strip_doc_comments(text):
@@ -461,7 +485,7 @@ class FnText:
             ty_end = toks[sig[j - 1]][3]
             self.inserts.append((ty_start, '(%s: ' % c['ret']))
             self.inserts.append((ty_end, ')'))
-        self.inserts.append((body_open, '\n' + c['text'].rstrip('\n') + '\n'))
+        self.inserts.append((body_open, '\n' + c['text'].rstrip('\n') + '\n', c['line']))
 
     def body_open_offset(self):
         toks, sig = self._toks()
@@ -518,7 +542,7 @@ class FnText:
             if kw != 'for' or in_off is None:
                 raise LostAnchor('%s: loop #%d is not a for loop' % (self.path, ordinal))
             self.inserts.append((in_off, ' %s:' % spec['iter']))
-        self.inserts.append((body_open, '\n' + spec['text'].rstrip('\n') + '\n'))
+        self.inserts.append((body_open, '\n' + spec['text'].rstrip('\n') + '\n', spec['line']))
 
     def closure_sites(self):
         """zero-parameter closures `|| body` in source order: (after_bars_offset, body_start,
@@ -576,7 +600,7 @@ class FnText:
         else:
             off = self.text.find('\n', m.end())
             off = len(self.text) if off < 0 else off + 1
-        self.inserts.append((off, p['text'] if p['text'].endswith('\n') else p['text'] + '\n'))
+        self.inserts.append((off, p['text'] if p['text'].endswith('\n') else p['text'] + '\n', p['line']))
 
     def render(self):
         """returns list of (text, src_line or None)"""
@@ -584,13 +608,15 @@ class FnText:
         pos = 0
         line = self.src_line
         # stable sort by offset; inserts at same offset keep declaration order
-        for off, ins in sorted(self.inserts, key=lambda x: x[0]):
+        for ins_t in sorted(self.inserts, key=lambda x: x[0]):
+            off, ins = ins_t[0], ins_t[1]
+            specline = ins_t[2] if len(ins_t) > 2 else None
             if off > pos:
                 seg = self.text[pos:off]
                 chunks.append((seg, line))
                 line += seg.count('\n')
                 pos = off
-            chunks.append((ins, None))
+            chunks.append((ins, ('spec', specline) if specline else None))
         if pos < len(self.text):
             chunks.append((self.text[pos:], line))
         return chunks
@@ -657,7 +683,10 @@ def extract_unit(spec_path, repo, out_path, meta_path=None, canary=None):
             chunks.append((contracts['attr'][fnpath], None))
             used_attr.add(fnpath)
         for t, l in ft.render():
-            chunks.append((t, (relfile, l) if l else None))
+            if isinstance(l, tuple):
+                chunks.append((t, ('@spec', l[1])))
+            else:
+                chunks.append((t, (relfile, l) if l else None))
         chunks.append(('\n', None))
         functions.append({
             'fn': fnpath, 'file': relfile, 'line_start': line,
@@ -701,6 +730,12 @@ def extract_unit(spec_path, repo, out_path, meta_path=None, canary=None):
             ty = item['name']
             i_start, i_kw, i_open, i_close = locate_impl(src, ty, item.get('trait'))
             hdr = src.text[src.tok(i_kw)[2]:src.tok(i_open)[3]]
+            if item.get('as_inherent'):
+                # R6: methods of a trait impl are extracted as inherent methods (trait dispatch dropped)
+                new_hdr = 'impl %s {' % ty
+                log.append({'rule': 'R6', 'before': hdr.strip(), 'after': new_hdr, 'file': rel,
+                            'line': src.line_of(src.tok(i_kw)[2])})
+                hdr = new_hdr
             chunks.append((rewrite(hdr) + '\n', (rel, src.line_of(src.tok(i_kw)[2]))))
             for mname in item['methods']:
                 s_start, _, _, s_close = locate(src, 'fn', mname, i_open, i_close)
@@ -742,7 +777,10 @@ def extract_unit(spec_path, repo, out_path, meta_path=None, canary=None):
             if canary in ('*', item['name']):
                 ft.inserts.append((len(sig_text) + 3, '    assert(false); // CANARY\n'))
             for t, l in ft.render():
-                chunks.append((t, (rel, l) if l else None))
+                if isinstance(l, tuple):
+                    chunks.append((t, ('@spec', l[1])))
+                else:
+                    chunks.append((t, (rel, l) if l else None))
             chunks.append(('\n\n', None))
             functions.append({
                 'fn': item['name'], 'file': rel, 'line_start': line, 'line_end': src.line_of(b),
@@ -777,13 +815,20 @@ def extract_unit(spec_path, repo, out_path, meta_path=None, canary=None):
     out_text = out_text.replace('@VERIF@', os.path.dirname(os.path.dirname(os.path.abspath(__file__))))
     # line table: generated line -> (file, line)
     line_table = {}
+    spec_table = {}
     gl = 1
     for t, origin in allchunks:
         if origin:
             f, l = origin
             parts = t.split('\n')
+            # an inserted section starts with '\n' (contracts/loops): its text begins one line later
+            shift = -1 if (f == '@spec' and t.startswith('\n')) else 0
             for k, part in enumerate(parts):
-                if part.strip() and (gl + k) not in line_table:
+                if not part.strip():
+                    continue
+                if f == '@spec':
+                    spec_table.setdefault(gl + k, l + k + shift + 1)
+                elif (gl + k) not in line_table:
                     line_table[gl + k] = (f, l + k)
         gl += t.count('\n')
     with open(out_path, 'w') as f:
@@ -792,6 +837,8 @@ def extract_unit(spec_path, repo, out_path, meta_path=None, canary=None):
         'unit': spec['name'], 'spec': spec_path, 'generated': out_path,
         'functions': functions, 'rewrites': log,
         'line_table': {str(k): v for k, v in line_table.items()},
+        'spec_table': {str(k): v for k, v in spec_table.items()},
+        'contract_file': spec['contracts'],
         'trusted_scan': trusted_scan(out_text),
         'obligation_count': count_obligations(out_text, contracts, functions),
     }
